@@ -81,12 +81,15 @@ func (s *DefaultMetricSearcher) searchOffsetAndRead(beginTimeMs uint64, doRead f
 		if err != nil {
 			logging.Warn("[searchOffsetAndRead] Failed to findOffsetToStart, will try next file", "beginTimeMs", beginTimeMs,
 				"filename", filename, "offsetStart", offsetStart, "err", err)
+			offsetStart = 0
 			continue
 		}
 		if offset >= 0 {
 			// Read metric items from the offset of current file (number i).
 			return doRead(filenames, i, uint64(offset))
 		}
+		// The cached index offset only applies to the cached file.
+		offsetStart = 0
 	}
 	return make([]*base.MetricItem, 0), nil
 }
@@ -98,7 +101,7 @@ func (s *DefaultMetricSearcher) getOffsetStartAndFileIdx(filenames []string, beg
 	}
 	if cacheOk {
 		for j, v := range filenames {
-			if v != s.cachedPos.metricFilename {
+			if v == s.cachedPos.metricFilename {
 				i = uint32(j)
 				offsetInIdx = s.cachedPos.curOffsetInIdx
 				break
